@@ -191,8 +191,16 @@ class LoggingArray(np.ndarray):
 # --------------------------------------------------------------------------- the harness
 class Harness:
     def __init__(self, ubasis, vbasis, raw_form, mode="free", schedule=None, fine=False,
-                 first_pair_to_worker=None, step_timeout=30.0, total_timeout=120.0):
+                 first_pair_to_worker=None, step_timeout=30.0, total_timeout=120.0, expire_join_timeouts=False):
         assert mode in ("free", "controlled")
+        # "a worker may take arbitrarily long": while the real `_assemble` runs, every Thread.join with a *finite*
+        # timeout issued by the assembling thread on a thread the harness did not create returns at once, as if the
+        # timeout had elapsed (join() / join(None) is left alone).  A loop `while t.is_alive(): t.join(1.)` still
+        # waits for the worker; a single `t.join(5.)` does not.
+        self.expire_join_timeouts = bool(expire_join_timeouts)
+        self.finite_joins = 0
+        self.join_patch_used = False
+        self.own_threads = set()
         self.ub = ubasis
         self.vb = vbasis if vbasis is not None else ubasis
         self.raw = raw_form
@@ -408,7 +416,23 @@ class Harness:
                     h.cond.notify_all()
 
         def assemble(*a, **kw):
-            out = real_asm(inst, *a, **kw)
+            if not h.expire_join_timeouts:
+                out = real_asm(inst, *a, **kw)
+            else:
+                orig_join = threading.Thread.join
+                caller = threading.current_thread()
+
+                def join(self, timeout=None):
+                    if timeout is not None and threading.current_thread() is caller and self not in h.own_threads:
+                        h.finite_joins += 1
+                        return orig_join(self, 0)
+                    return orig_join(self, timeout)
+                threading.Thread.join = join
+                h.join_patch_used = True
+                try:
+                    out = real_asm(inst, *a, **kw)
+                finally:
+                    threading.Thread.join = orig_join
             with h.cond:
                 alive = [tk for tk in h.worker_tks if h.thread_objs[tk].is_alive()]
                 h._ev("return", h._tk(), alive)
@@ -431,6 +455,7 @@ class Harness:
         try:
             if self.mode == "controlled":
                 sched_thread = threading.Thread(target=self._scheduler, name="c16-scheduler", daemon=True)
+                self.own_threads.add(sched_thread)
                 sched_thread.start()
             if vb_arg is None:
                 A = inst.assemble(self.ub, **kwargs)
